@@ -24,4 +24,3 @@ INVARIANT NoAnchorNotSecure
 INVARIANT LimitsEnforced
 INVARIANT Emit
 CHECK_DEADLOCK TRUE
-PROPERTY Termination
